@@ -7,7 +7,7 @@
     spelling in the documented notation [spell], the value the user function must receive
     [compact_fields], covered signatures [wf_sig], admissible query-string encodings [enc_qs]. *)
 From Coq Require Import ZArith List Bool Sorted Permutation.
-From SpyneV Require Import Base.Prelude C03.Model C03.Check C03.Spec C03.S2cmi C03.Request C03.Flatten C03.Refute.
+From SpyneV Require Import Base.Prelude C03.Model C03.Check C03.Spec C03.S2cmi C03.Unflat C03.Request C03.Flatten C03.Refute C03.Response.
 Import ListNotations.
 Open Scope Z_scope.
 
@@ -52,6 +52,23 @@ Theorem C03_flatten_roundtrip : forall strict d fs inst doc,
   Permutation doc (sent_doc (flatten d fs inst)) ->
   exists o, unflatten true strict d fs doc = Ok o /\ erase_obj o = inst.
 Proof. exact flatten_roundtrip. Qed.
+
+(** the response to a call that returns one primitive: for every header class of primitive members
+    and arrays of primitives and every header object, each member that is set reaches start_response
+    with its exact text (an array as one header line per element, in order), a member that is not set
+    leaves what the transport had, Content-Length is the decimal length of the body, and the body is
+    exactly the chunks written for the return value *)
+Theorem C03_response_fidelity : forall base hfs hinst chunks,
+  NoDup (map fst base) -> NoDup (map fst hfs) -> flat_class hfs -> ~ In CONTENT_LENGTH (map fst hfs) ->
+  snd (http_response base hfs hinst chunks) = concat chunks /\
+  hdr_lookup CONTENT_LENGTH (fst (http_response base hfs hinst chunks)) = [str_idx (len (concat chunks))] /\
+  forall k arr, In (k, TPrim arr) hfs ->
+    hdr_lookup k (fst (http_response base hfs hinst chunks)) =
+    match member_value arr (getd hinst k) with
+    | Some f => fval_values f
+    | None => hdr_lookup k (gen_http_headers base)
+    end.
+Proof. exact response_fidelity. Qed.
 
 (** the defect of the pinned tree (plain string sort of the keys; repaired by the proposed fix):
     the documented indexed notation with more than ten elements is scrambled ... *)
@@ -156,3 +173,10 @@ Example C03_ex_pinned :
 Proof.
   split; [reflexivity|]. split; [reflexivity|]. eexists. split; vm_compute; reflexivity.
 Qed.
+
+(** X-Count: 7, two Set-Cookie lines, body "ok" *)
+Example C03_ex_response :
+  http_response [([67], FOne [116])] [([88], TPrim false); ([83], TPrim true)]
+                [([88], VStr [55]); ([83], VList [[97]; [98]])] [[111]; [107]]
+  = ([([67], [116]); ([88], [55]); ([83], [97]); ([83], [98]); (CONTENT_LENGTH, [50])], [111; 107]).
+Proof. vm_compute. reflexivity. Qed.
